@@ -62,7 +62,7 @@ m={"version":1,
  "setup_cmd":"./setup.sh",
  "hooks":{"guard":"verif","enable":"go build -tags verif (gosim additionally: -overlay of mechanically rewritten sources)",
           "baseline_off_cmd":"cd /repo && go test -json -vet=off -count=1 -timeout 25m ./...",
-          "source_commits":["f7aa890","ed1cce0","5eecebe"],"add_only":True},
+          "source_commits":["f7aa890","ed1cce0","5eecebe","b3f9644"],"add_only":True},
  "engines":[
   {"name":"gosim","path":"gosim/","serves_properties":sorted(k for k,v in checks.items() if v["engine"]=="gosim"),
    "kind_free_text":"source-to-source rewriter (go/chan/select/sync/context/time -> controlled scheduler) + stateless DFS explorer with deviation bounding, state-key pruning and sharding over worker processes; runs the real lime-go code"},
